@@ -103,14 +103,33 @@ def password_classes(rng, h, bname, tier):
     for ln in lens:
         out.append((f"len{ln}", H.pw_bytes(rng, ln, rng.choice(["ascii", "binary"]))))
     out.append(("long", H.pw_bytes(rng, rng.choice([1000, 4095, 4096]))))
+    # data that looks like the format's own syntax: the prefix / identifier of the hash inside the password, and a password that IS a hash string
+    marks = [m for m in (getattr(h, "prefix", None), getattr(h, "orig_prefix", None), getattr(h, "ident", None), getattr(getattr(h, "wrapped", None), "ident", None)) if isinstance(m, str) and m]
+    for m in marks[:2]:
+        out.append(("contains-own-prefix", "abc" + m + "def" + m))
+    out.append(("looks-like-a-hash", "$1$abcdefgh$G//4keteveJp0qb8z2DxG/"))
+    if t and t >= 16:
+        # multi-byte characters placed across the truncation limit in every alignment
+        out.append(("straddle-2", "a" * (t - 1) + "\u00e9" * 20))
+        out.append(("straddle-3", "a" * (t - 2) + "\u20ac" * 20))
+        out.append(("straddle-4", "a" * (t - 1) + "\U0001f600" * 10))
     return out
 
 
-def work(run, names):
-    rng = run.rng(",".join(names))
+def work(run, names, backend=None):
+    rng = run.rng(",".join(names) + (backend or ""))
     for name in names:
         h = H.get(name)
         bname = H.base_name(h)
+        if backend:
+            # the same under another selectable backend (the OS crypt() cuts and scans passwords itself)
+            try:
+                if backend not in getattr(h, "backends", ()) or not h.has_backend(backend):
+                    continue
+                h.set_backend(backend)
+                run.count(f"under_backend:{backend}")
+            except Exception:
+                continue
         if name in H.DISABLED:
             disabled(run, h, rng)
             continue
@@ -149,6 +168,8 @@ def work(run, names):
                         ctx["user"], ctx["realm"] = "üser", "réalm"
                 secret = pw.encode("utf-8") if isinstance(pw, str) else pw
                 adm = admissible(bname, secret, ctx)
+                if backend == "os_crypt" and "bcrypt" in bname and not H.is_utf8(secret):
+                    adm = False       # bcrypt's os_crypt backend takes UTF-8 only (recorded finding of C03); outside this backend's domain
                 # one case in five goes through the older spelling hash(secret, **settings, **context) (deprecated but supported;
                 # hashers without settings get relaxed=True, which every hasher accepts)
                 legacy_call = (not default_cost and isinstance(h, type) and issubclass(h, _GenericHandler) and (si + len(label)) % 5 == 0
@@ -235,7 +256,7 @@ def work(run, names):
                         got = h.verify(probe, hs, **ctx)
                     except (ValueError, TypeError):
                         run.count("near_miss_refused")
-                        if expect:
+                        if expect and not (backend == "os_crypt" and "bcrypt" in bname and not H.is_utf8(m)):
                             run.violation(f"C01|{name}|equivalent-password-refused|{kind}", f"{name}: documented-equivalent password refused", dict(w, near_miss=m, kind=kind))
                         continue
                     except Exception as e:
@@ -332,7 +353,10 @@ def body(run):
     for n in H.ARGON:
         run.note(f"{n}: no argon2 backend installed on this host - not exercised")
     shards = [dict(names=names[i::16]) for i in range(16)]
+    oc = [n for n in names if "os_crypt" in getattr(H.get(n), "backends", ())]
+    shards += [dict(names=oc[i::4], backend="os_crypt") for i in range(4)]
     run.parallel("checks.c01", "work", shards, timeout=1200 if run.tier == "quick" else 5400)
+    run.require("under_backend:os_crypt", 4)
     libpass(run)
     for n in names:
         if H.usable(n):
